@@ -258,7 +258,37 @@ def part3(root):
     if os.path.exists(old):
         fails[('bnd:C17.cleanup_spares_active', 'old-kept')] = dict(ob='bnd:C17.cleanup_spares_active', sig='old-kept',
                                                                      detail='an entry unused for > 30 days was kept', inp='clear_inactive_cache', count=1)
-    return 2, fails
+    # an entry in use inside a directory that looks old: the directory's own timestamps only move when a name is created or
+    # removed in it, they say nothing about entries that are read, or re-saved in place, every day
+    now = time.time()
+    vdir = os.path.dirname(hp)
+    if os.path.exists(hp):
+        os.utime(hp, (now, t))              # read a moment ago, written long ago
+        os.utime(vdir, (t, t))
+        pc.clear_inactive_cache(cache_path=cdir)
+        if not os.path.exists(hp):
+            fails[('bnd:C17.cleanup_spares_active', 'in-use-removed')] = dict(
+                ob='bnd:C17.cleanup_spares_active', sig='in-use-removed',
+                detail='an entry read a moment ago was deleted because its directory (or its own mtime) is old', inp='clear_inactive_cache', count=1)
+    # ... and through the real path: the lock is due, the source changed, the entry is re-saved in place, the clean-up runs
+    g2, src2, cdir2, hp2, _ = setup(root, 2)
+    vdir2 = os.path.dirname(hp2)
+    lock = pc._get_cache_clear_lock_path(cache_path=cdir2)
+    with open(lock, 'a'):
+        pass
+    os.utime(lock, (now - 3 * 24 * 3600, now - 3 * 24 * 3600))
+    with open(src2, 'a') as f:
+        f.write('\nz = 3\n')
+    os.utime(src2, (now + 5, now + 5))
+    os.utime(vdir2, (t, t))
+    pc.parser_cache.clear()
+    g2.parse(path=src2, cache=True, cache_path=cdir2)
+    if not os.path.exists(hp2):
+        fails[('bnd:C17.cleanup_spares_active', 'just-saved-removed')] = dict(
+            ob='bnd:C17.cleanup_spares_active', sig='just-saved-removed',
+            detail='the clean-up that ran after a save deleted the entry that had just been saved (its directory looked old)',
+            inp='parse(cache=True) with a due lock', count=1)
+    return 4, fails
 
 
 def _hammer(args):
